@@ -38,7 +38,9 @@ func (r *replayChooser) Choose(kind string, costs []int8) int {
 		}
 	}
 	cc := make([]int8, len(costs))
-	copy(cc, costs)
+	for k := range costs { // no copy(): runtime.slicecopy carries race hooks
+		cc[k] = costs[k]
+	}
 	r.points = append(r.points, PointRec{N: len(costs), Chosen: c, Cost: costs[c], Kind: kind, Costs: cc})
 	return c
 }
@@ -86,6 +88,9 @@ type Explorer struct {
 	MaxState int
 	// Prune enables happens-before state caching (sound for race-free code).
 	Prune bool
+	// NoConfirm skips the 5-fold replay of a violation (race reports are
+	// de-duplicated by the race runtime and cannot fail twice).
+	NoConfirm bool
 
 	Stats   Stats
 	Found   []Found
@@ -174,7 +179,7 @@ func (x *Explorer) explore(prefix []int, cost int, expect []PointRec, depth int,
 				choices[i] = p.Chosen
 			}
 			// confirm determinism: the same choices must fail the same way 5 times
-			for k := 0; k < 5; k++ {
+			for k := 0; k < 5 && !x.NoConfirm; k++ {
 				r2, u2, c2 := x.RunOnce(choices, ch.points, false)
 				same := false
 				for _, v2 := range x.Check(r2, u2) {
